@@ -273,6 +273,7 @@ func (s *Species) reproduce(ctx context.Context, generation int, pop *Population
 
 	// Create the designated number of offspring for the Species one at a time
 	for count := 0; count < s.ExpectedOffspring; count++ {
+		verifYield("offspring")
 		// check if execution was canceled and exit
 		select {
 		case <-ctx.Done():
